@@ -2,12 +2,13 @@
    Model: C02/Model.v (commands of plugins/User, Admin, Channel with their converters and gates, on top of the
    C03 / C04 / C13 / C16 models).  Proofs: C02/Lemmas.v (in-memory owner invariant), C02/Bridge.v (C03 and C16
    capability algebra coincide), C02/Reader.v (the users.conf reader on well-formed accounts, collisions included),
-   C02/Inv.v (well-formedness is an invariant of the histories), C02/Reload.v (C16 domain, examples).
+   C02/Inv.v (well-formedness is an invariant of the histories), C02/Grant.v (capabilities grow only through
+   an entitled add), C02/Reload.v (C16 domain, examples).
    owner_in z us : some account with id z in us holds the capability owner;
    owners_sub us' us : every owner id of us' is an owner id of us. *)
 From Coq Require Import List NArith ZArith Bool.
 Import ListNotations.
-Require Import Base.Wire Base.PyStr C02.Model C02.Lemmas C02.Inv C02.Reload.
+Require Import Base.Wire Base.PyStr C02.Model C02.Lemmas C02.Inv C02.Grant C02.Reload.
 Require C02.Reader C16.Model.
 
 (* the converter lists of the 18 modelled commands are the ones the model was written against *)
@@ -30,32 +31,76 @@ Theorem C02_effect_never_grants_owner :
 Proof. intros s E text a cs H. pose proof (effect_of_ok s E text) as K. rewrite H in K. exact K. Qed.
 Print Assumptions C02_effect_never_grants_owner.
 
-(* The reload clause.  Full statement:
-     forall ops s, owners_sub (s_users (run_ops s ops)) (s_users s)                (ops may contain OReload)
-   Since the repairs of C02.F1 (user names) and C02.F43 (capability tokens) every account the modelled commands
-   write is well formed for users.conf; this is an invariant of the histories (wf_state: ids >= 0; names safe
-   fields and not hostmask-shaped; passwords hashed; capabilities folded single tokens other than -owner; nicks and
-   gpg keys as C16 requires; IrcUserCreator.u empty or a record with an id) ... *)
+(* ------------------------------------------------------------------ *)
+(* Capabilities only grow through an entitled add.
+   [had us z c]: some account with id z in us holds c.  [grant s E text z c] (C02/Grant.v): in state s the message
+   `text` from E's sender is, as the code decides it, either
+     - `admin capability add <n> <craw>`, not ignored, past the command-capability gate of the Admin plugin (the
+       sender does not hold -admin, a default anticapability: C02_admin_gate), <n> resolves to account z,
+       c = toLower(craw) is a single token, is not owner, and is an anticapability or a capability
+       ircdb.checkCapability(sender, c) answers True for ("capabilities you don't have" as implemented), or
+     - `channel capability add <ch> <n> <craw>`, not ignored, past the gate, ch a channel name for which
+       checkCapability(sender, "<ch>,op") is True, <n> resolves to z and c = toLower("<ch>,<word of craw>"). *)
+Theorem C02_grow_only_entitled :
+  forall ops s, Forall no_reload ops ->
+  forall a' c, In a' (s_users (run_ops s ops)) -> C03.Model.smem c (caps a') = true ->
+  had (s_users s) (aid a') c
+  \/ exists pre E text post, ops = pre ++ OCmd E text :: post /\ grant (run_ops s pre) E text (aid a') c.
+Proof. exact run_ops_grow. Qed.
+Print Assumptions C02_grow_only_entitled.
+
+(* one message *)
+Theorem C02_grow_only_entitled_step :
+  forall s E text a' c, In a' (s_users (step s (OCmd E text))) -> C03.Model.smem c (caps a') = true ->
+  had (s_users s) (aid a') c \/ grant s E text (aid a') c.
+Proof. exact step_grow. Qed.
+Print Assumptions C02_grow_only_entitled_step.
+
+(* with reloads anywhere in the history, from a well-formed database: a reload never adds a capability *)
+Theorem C02_grow_only_entitled_with_reloads :
+  forall ops s, wf_state s = true ->
+  forall a' c, In a' (s_users (run_ops s ops)) -> C03.Model.smem c (caps a') = true ->
+  had (s_users s) (aid a') c
+  \/ exists pre E text post, ops = pre ++ OCmd E text :: post /\ grant (run_ops s pre) E text (aid a') c.
+Proof. intros ops s H. apply run_ops_grow_reload. apply wf_state_Inv. exact H. Qed.
+Print Assumptions C02_grow_only_entitled_with_reloads.
+
+(* an account id that did not exist before a message was created by `user register`, with the empty set *)
+Theorem C02_new_account_empty :
+  forall s E text a', In a' (s_users (step s (OCmd E text))) ->
+  (exists a, In a (s_users s) /\ aid a = aid a') \/
+  ((exists name pw addmask, effect_of s E text = ERegister name pw addmask) /\ caps a' = []).
+Proof. exact step_new. Qed.
+Print Assumptions C02_new_account_empty.
+
+(* what passing the Admin gate contains: checkCapability(sender, "-admin") is not True *)
+Theorem C02_admin_gate :
+  forall s E, gate_blocked s E admin_add_words = false -> holds s E (DASH :: ADMIN) = false.
+Proof. exact admin_gate_means. Qed.
+Print Assumptions C02_admin_gate.
+
+(* ------------------------------------------------------------------ *)
+(* The reload clause, full statement up to the starting database:
+   well-formedness of every account for users.conf (wf_state: ids >= 0; names safe fields and not hostmask-shaped;
+   passwords hashed; capabilities folded single tokens other than -owner; hostmasks accepted by isUserHostmask, i.e.
+   a token with at most one trailing newline; nicks and gpg keys as C16 requires; IrcUserCreator.u empty or a record
+   with an id) is an invariant of ALL histories of commands, flushes and reloads ... *)
 Theorem C02_wf_state_invariant :
-  forall ops s, wf_state s = true -> reloads_hosts_ok s ops = true -> wf_state (run_ops s ops) = true.
+  forall ops s, wf_state s = true -> wf_state (run_ops s ops) = true.
 Proof.
-  intros ops s H Hh. apply wf_state_Inv. apply wf_state_Inv in H. exact (proj1 (run_ops_inv_sub ops s H Hh)).
+  intros ops s H. apply wf_state_Inv. apply wf_state_Inv in H. exact (proj1 (run_ops_inv_sub ops s H)).
 Qed.
 Print Assumptions C02_wf_state_invariant.
 
-(* ... and from a well-formed database no history of commands, flushes and reloads adds an owner — whatever the
-   id / name / hostmask collisions between accounts (the load then stops or drops hostmasks, C02/Reader.v), which
-   C16's round-trip domain excludes.  Remaining hypotheses, and why:
-     wf_state s            the starting database: in particular every password is hashed (an account with an
-                           unhashed password would store the next `user set password` argument raw);
-     reloads_hosts_ok      at reload points every stored hostmask is a single token: `user hostmask add "a!b@c\n"`
-                           passes isUserHostmask (its `$` tolerates a trailing newline), and msg.prefix is an
-                           arbitrary string in the model (the IRC parser never yields whitespace in it). *)
+(* ... and from a well-formed database no history adds an owner, whatever the id / name / hostmask collisions between
+   accounts (the load then stops or drops hostmasks: C02/Reader.v) and whatever hostmasks were added (a trailing
+   newline is written as a blank line, which the reader skips).  The only hypothesis left is on the starting
+   database; its essential part is that every password is hashed (an account with an unhashed password would store
+   the next `user set password` argument raw) — true of every account the bot itself creates. *)
 Theorem C02_no_new_owner_reload :
-  forall ops s, wf_state s = true -> reloads_hosts_ok s ops = true ->
-  owners_sub (s_users (run_ops s ops)) (s_users s).
+  forall ops s, wf_state s = true -> owners_sub (s_users (run_ops s ops)) (s_users s).
 Proof.
-  intros ops s H Hh. apply wf_state_Inv in H. exact (proj2 (run_ops_inv_sub ops s H Hh)).
+  intros ops s H. apply wf_state_Inv in H. exact (proj2 (run_ops_inv_sub ops s H)).
 Qed.
 Print Assumptions C02_no_new_owner_reload.
 
@@ -67,10 +112,10 @@ Proof. exact run_ops_sub_dom. Qed.
 Print Assumptions C02_no_new_owner_reload_on_c16_domain.
 
 (* what a reload does to the accounts, collisions included: each loaded account is one that was written, with its
-   capabilities re-added (a subset) and its hostmasks re-added or dropped *)
+   capabilities re-added (a subset) and its hostmasks (minus a trailing newline) re-added or dropped *)
 Theorem C02_reload_loads_only_written :
-  forall l, forallb wf_user l = true -> forallb hosts_ok l = true ->
+  forall l, forallb wf_user l = true ->
   forall v, In v (C16.Model.us_db (fst (C16.Model.read_users_from None (C16.Model.write_sorted_users l)))) ->
   C02.Reader.loaded_from l v.
-Proof. intros l H1 H2. exact (proj1 (C02.Reader.read_gen l H1 H2)). Qed.
+Proof. intros l H1. exact (proj1 (C02.Reader.read_gen l H1)). Qed.
 Print Assumptions C02_reload_loads_only_written.
